@@ -247,6 +247,7 @@ CORPUS = [
 def run(ck):
     import c15model
     ck.proof_side()
+    ck.cov['further_clauses'] = 'corpus: taper limits together with scaling of everything / of single wires; a rejected corpus line is a disagreement'
     d = ck.get_driver()
     rng = ck.rng
     n = 150 if ck.tier == 'quick' else 2500
